@@ -10,6 +10,8 @@ A history is JSON: {'cfg': {'ordered': bool, 'ttl_q': int|None, 'base': int, 'be
   ['C', now_q]                  clock := now, cleanup()
   ['P', mmsi] / ['P', 'mmsi']   pop_track(mmsi) (int or numeric string)
   ['L', n]   ['G', mmsi]        queries n_latest_tracks(n) / get_track(mmsi)
+  ['T', ttl_q|None]             tracker.ttl_in_seconds = ttl   (a new TTL, in the history's time unit; None = never expire)
+  ['M']                         tracker.stream_is_ordered = False   (only this direction, see Props/C14.v)
 All times are integers in quarter seconds relative to cfg.base (seconds): binary64 arithmetic on them is exact.
 cfg.beh (optional) says what the callbacks do: a list of rules [cb, ev, mmsi|None, 'ExceptionClass'] -- callback cb, called
 for event ev with a track of that MMSI (None: any track), raises that exception; the first matching rule decides; a callback
@@ -240,11 +242,11 @@ def run_impl(h):
     cfg = h['cfg']
     base = cfg['base']
     q = cfg.get('q', Q)          # model time unit of this history = 1/q second (4 by default; 4096 for sub-millisecond gaps)
-    ttl_q = cfg['ttl_q']
-    if ttl_q is None:
-        ttl = None
-    else:
-        ttl = ttl_q // q if ttl_q % q == 0 else ttl_q / q
+    def seconds(ttl_q):
+        if ttl_q is None:
+            return None
+        return ttl_q // q if ttl_q % q == 0 else ttl_q / q
+    ttl = seconds(cfg['ttl_q'])
     out = []
     cur = {'events': [], 'deliv': [], 'live': True, 'raised': [], 'raised_obj': None}
     foreign_before = _FOREIGN['n']
@@ -317,6 +319,10 @@ def run_impl(h):
                 elif k == 'G':
                     r = tracker.get_track(op[1])
                     rec['q'] = None if r is None else snap(r)
+                elif k == 'T':
+                    tracker.ttl_in_seconds = seconds(op[1])
+                elif k == 'M':
+                    tracker.stream_is_ordered = False
             except Exception as ex:      # noqa: BLE001 - the class name is the observation
                 rec['exn'] = type(ex).__name__
                 rec['from_cb'] = ex is cur['raised_obj']     # the very exception object a callback of the harness raised
@@ -332,6 +338,8 @@ def run_impl(h):
             rec['order'] = order
             rec['tracks'] = [snap(t) for t in tracker.tracks]
             rec['oldest'] = _q(tracker.oldest_timestamp, base, q)
+            # the public configuration attributes, as the tracker shows them after the operation
+            rec['config'] = (_q(tracker.ttl_in_seconds, 0, q), bool(tracker.stream_is_ordered))
             out.append(rec)
     cur['live'] = False
     if out:
@@ -371,6 +379,10 @@ def model_line(h, impl=None):
             items.append(f'{k},{op[1]},{op[2]}')
         elif k == 'L':
             items.append(f'L,{op[1]}')
+        elif k == 'T':
+            items.append(f"T,{'N' if op[1] is None else op[1]}")
+        elif k == 'M':
+            items.append('M')
     return (f"trk_run {1 if cfg['ordered'] else 0} {'N' if cfg['ttl_q'] is None else cfg['ttl_q']} {e.nattrs} "
             + ' '.join(items))
 
@@ -400,6 +412,7 @@ def parse_model(reply, h):
                                               for c in f['D'].split(',')]
             out.append({'exn': None if f['E'] == '-' else f['E'], 'calls': calls, 'deliv': deliv,
                         'ret': None if f['R'] == 'N' else _track(f['R']),
+                        'config': (None if f['K'].split('/')[0] == 'N' else int(f['K'].split('/')[0]), f['K'].split('/')[1] == '1'),
                         'oldest': None if f['O'] == 'None' else int(f['O']), 'tracks': _tracks(f['T'])})
     return out
 
@@ -429,6 +442,8 @@ def compare(h, impl, model, with_cache=True):
             return i, 'tracks', b['tracks'], a['tracks']
         if with_cache and a['oldest'] != b['oldest']:
             return i, 'oldest_timestamp', b['oldest'], a['oldest']
+        if a.get('config') != b['config']:
+            return i, 'ttl_in_seconds / stream_is_ordered', b['config'], a.get('config')
         # every callback invocation, in order (the model visits the expired MMSIs in the implementation's set order)
         da = [(cb, ev, tr) for cb, ev, tr in a['deliv']]
         db = [(cb, ev, tr) for cb, ev, tr in b['deliv']]
@@ -464,6 +479,21 @@ def mode(h):
     return 'ordered' if h['cfg']['ordered'] else 'unordered'
 
 
+def configs(h):
+    """The configuration IN FORCE when each operation starts, as the history prescribes it: [(ttl_q, ordered, mode text)].
+    mode text = 'ordered' | 'unordered' | 'switched-to-unordered' (built ordered, `stream_is_ordered = False` assigned later)."""
+    ttl, ordered, switched = h['cfg']['ttl_q'], h['cfg']['ordered'], False
+    out = []
+    for op in h['ops']:
+        out.append((ttl, ordered, 'ordered' if ordered else ('switched-to-unordered' if switched else 'unordered')))
+        if op[0] == 'T':
+            ttl = op[1]
+        elif op[0] == 'M':
+            switched = switched or ordered
+            ordered = False
+    return out
+
+
 def _plus(xs):
     return '+'.join(str(x) for x in xs) if xs else '_'
 
@@ -493,6 +523,10 @@ def oracle_lines(h, impl):
             sops.append(f'C,{op[1]},{_plus(dels)}')
         elif k == 'P':
             sops.append(f'P,{int(op[1])}')
+        elif k == 'T':
+            sops.append(f"T,{'N' if op[1] is None else op[1]}")
+        elif k == 'M':
+            sops.append('M')
         else:
             sops.append('O')
     if ms:
@@ -500,13 +534,15 @@ def oracle_lines(h, impl):
         index.append(('spec',))
     trace = []
     prev = []
+    cfgs = configs(h)
+    big = len(ms) > 12          # many vessels: ask the specification only where something can be owed (see below)
     for i, (op, a) in enumerate(zip(h['ops'], impl)):
         k = op[0]
-        if k in ('U', 'C') and a['exn'] is None and cfg['ttl_q'] is not None:
+        if k in ('U', 'C') and a['exn'] is None and cfgs[i][0] is not None:
             rem = [tr[1] for tr in a['tracks']]
             gone = [tr[1] for ev, tr in a['events'] if ev == 'd']
             if all(isinstance(x, int) for x in rem + gone):
-                lines.append(f"trk_ttl {cfg['ttl_q']} {op[1]} {_plus(rem)} {_plus(gone)}")
+                lines.append(f"trk_ttl {cfgs[i][0]} {op[1]} {_plus(rem)} {_plus(gone)}")
                 index.append(('ttl', i))
         if k == 'L' and a['exn'] is None and op[1] >= 0:
             allp = ','.join(f'{tr[0]}/{tr[1]}' for tr in a['tracks']) or '_'
@@ -521,6 +557,10 @@ def oracle_lines(h, impl):
             touched = {tr[0] for _, tr in a['events']} | (before ^ after)
             last = not any(o[0] in ('U', 'C', 'P') for o in h['ops'][i + 1:])
             for m in ms:
+                if big and m not in touched and m != target:
+                    # sp_expected_events target m b b = [] for m <> target: nothing is owed to a vessel whose state did
+                    # not change and that got no event (Spec/TrackerSpec.v, by cases); not asked 150 x 150 times
+                    continue
                 lines.append(f"trk_expected {'N' if target is None else target} {m} {int(m in before)} {int(m in after)}")
                 index.append(('expected', i, m))
                 if m in touched or last:       # the automaton state of m can only change where m has events
@@ -536,7 +576,7 @@ def evaluate(h, impl, lines, index, replies):
     e = env()
     cfg = h['cfg']
     ms = universe(h)
-    md = mode(h)
+    cfgs = configs(h)
     bad = []
     ans = dict(zip(index, replies))
     for r in replies:
@@ -545,6 +585,12 @@ def evaluate(h, impl, lines, index, replies):
     # ---- C12
     spec_steps = ans[('spec',)].split('|') if ms else []
     prev_tracks, prev_oldest = [], None
+    subs, subs_ok = [], True        # the (event, callback) pairs registered at this moment, in registration order
+    mon_all = [tuple(o) for o in h['ops'][:3]] and sorted(tuple(o) for o in h['ops'][:3]) == sorted(tuple(o) for o in MON_OPS)
+    rules = [tuple(r) for r in cfg.get('beh') or []]
+
+    def raises(cb, ev, mmsi):
+        return any(c == cb and e2 == ev and (m is None or m == mmsi) for c, e2, m, x in rules)
     for i, (op, a) in enumerate(zip(h['ops'], impl)):
         k = op[0]
         if k in ('L', 'G'):
@@ -561,7 +607,10 @@ def evaluate(h, impl, lines, index, replies):
         else:
             want, rejected = {}, False
         keys = [tr[0] for tr in a['tracks']]
-        sig = {'entry': {'U': 'update', 'C': 'cleanup', 'P': 'pop_track'}.get(k, 'register_callback'), 'mode': md}
+        md = cfgs[i][2]
+        cur_ttl = cfgs[i][0]
+        sig = {'entry': {'U': 'update', 'C': 'cleanup', 'P': 'pop_track', 'T': 'ttl_in_seconds', 'M': 'stream_is_ordered'}.get(k, 'register_callback'),
+               'mode': md}
         refused = k == 'U' and not accepted(a)      # update() raised, and not because a subscriber raised
         if k == 'U':
             if rejected and not refused:
@@ -602,14 +651,14 @@ def evaluate(h, impl, lines, index, replies):
         # ---- C13
         if k in ('U', 'C') and a['exn'] is None:
             dels = [tr for ev, tr in a['events'] if ev == 'd']
-            if cfg['ttl_q'] is None:
+            if cur_ttl is None:
                 gone = [m for m in {tr[0] for tr in prev_tracks} if m not in keys]
                 if dels or gone:
                     bad.append(('C13', i, dict(sig, component='expiry', kind='expired-without-ttl'),
                                 f'step {i}: ttl None but tracks {sorted(set(gone) | {t[0] for t in dels})} were removed'))
             elif ('ttl', i) in ans:
                 if ans[('ttl', i)] != '1':
-                    T, now = cfg['ttl_q'], op[1]
+                    T, now = cur_ttl, op[1]
                     stale = [tr[0] for tr in a['tracks'] if now - tr[1] >= T]
                     fresh = [tr[0] for tr in dels if now - tr[1] < T]
                     if stale:
@@ -623,7 +672,7 @@ def evaluate(h, impl, lines, index, replies):
                     if not stale and not fresh:
                         bad.append(('C13', i, dict(sig, component='expiry', kind='spec-disagrees'), f'step {i}: sp_ttl_okb = false'))
                 # a track that vanished without a DELETED event is judged by its last known timestamp
-                T, now = cfg['ttl_q'], op[1]
+                T, now = cur_ttl, op[1]
                 tgt = e.build(op[2])[1] if k == 'U' else None
                 for tr in prev_tracks:
                     if tr[0] not in keys and tr[0] not in {d[0] for d in dels} and tr[0] != tgt and now - tr[1] < T:
@@ -633,7 +682,7 @@ def evaluate(h, impl, lines, index, replies):
         if k in ('U', 'C', 'P'):
             got = per_mmsi(a['events'])
             for m in ms:
-                exp = ans[('expected', i, m)]
+                exp = ans.get(('expected', i, m), '_')       # not asked: nothing owed (oracle_lines, many vessels)
                 g = ''.join(ev for ev, _ in got.get(m, [])) or '_'
                 if g != exp:
                     bad.append(('C15', i, dict(sig, component='events', kind=f'expected:{exp}:got:{g}'),
@@ -653,10 +702,47 @@ def evaluate(h, impl, lines, index, replies):
             for ev, tr in a['events']:
                 if tr[0] not in ms:
                     bad.append(('C15', i, dict(sig, component='events', kind='foreign-mmsi'), f'step {i}: event for unseen MMSI {tr[0]}'))
+            # To whom (Props/C15.v C15_deliveries): every event of this operation reaches every subscriber that is
+            # registered for it at this moment -- in registration order up to the first one that raises, so a
+            # subscriber behind a raising one is owed nothing -- and no subscriber that was removed (or never
+            # registered).  The events are those the monitors saw (they are registered first, for all three events).
+            # Not judged from the first double registration of a pair on (the property does not say what that means).
+            if subs_ok and mon_all:
+                owed, allowed = [], set(subs)
+                for ev, tr in a['events']:
+                    for e2, cb in subs:
+                        if e2 != ev:
+                            continue
+                        owed.append((cb, ev, tr))
+                        if raises(cb, ev, tr[0]):
+                            break
+                have = list(a['deliv'])
+                for d in owed:
+                    if d in have:
+                        have.remove(d)
+                    else:
+                        bad.append(('C15', i, dict(sig, component='deliveries', kind='registered-subscriber-not-called'),
+                                    f'step {i}: {sig["entry"]} emitted {d[1]} for MMSI {d[2][0]}, but callback {d[0]}, registered for '
+                                    f'"{d[1]}" at that moment (registered, removed and registered again counts as registered), '
+                                    f'was not called'))
+                        break
+                for d in a['deliv']:
+                    if (d[1], d[0]) not in allowed:
+                        bad.append(('C15', i, dict(sig, component='deliveries', kind='removed-subscriber-called'),
+                                    f'step {i}: callback {d[0]} was called for "{d[1]}" (MMSI {d[2][0]}) although it is not registered '
+                                    f'for that event at that moment'))
+                        break
+        if k == 'A':
+            if (op[1], op[2]) in subs:
+                subs_ok = False                   # the same pair twice: from here on the deliveries are not judged
+            subs.append((op[1], op[2]))
+        elif k == 'D' and (op[1], op[2]) in subs:
+            subs.remove((op[1], op[2]))
         prev_tracks, prev_oldest = a['tracks'], a['oldest']
     # ---- C14
     for i, (op, a) in enumerate(zip(h['ops'], impl)):
         if op[0] == 'L' and op[1] >= 0:
+            md = cfgs[i][2]
             sig = {'entry': 'n_latest_tracks', 'mode': md}
             if a['exn'] is not None:
                 bad.append(('C14', i, dict(sig, component='exception', kind=f'exception:{a["exn"]}'),
@@ -667,7 +753,7 @@ def evaluate(h, impl, lines, index, replies):
                 bad.append(('C14', i, dict(sig, component='selection', kind='not-top-n'),
                             f'step {i}: n_latest_tracks({op[1]}) = {[(t[0], t[1]) for t in a["q"]]} (mmsi, last_updated/4 s) is not '
                             f'min(n, |tracks|) distinct most recently updated tracks of {[(t[0], t[1]) for t in a["tracks"]]}'))
-            elif not cfg['ordered'] and newest != '1':
+            elif not cfgs[i][1] and newest != '1':
                 bad.append(('C14', i, dict(sig, component='order', kind='not-newest-first'),
                             f'step {i}: n_latest_tracks({op[1]}) = {[(t[0], t[1]) for t in a["q"]]} is not sorted newest first'))
     return bad
@@ -679,8 +765,21 @@ def features(h, impl):
     f = set()
     cfg = h['cfg']
     prev = []
-    for op, a in zip(h['ops'], impl):
+    cfgs = configs(h)
+    for i, (op, a) in enumerate(zip(h['ops'], impl)):
         k = op[0]
+        cur_ttl, cur_ordered = cfgs[i][0], cfgs[i][1]
+        if k == 'T':
+            f.add('cfg:ttl-assigned')
+            if op[1] is not None and (cur_ttl is None or op[1] < cur_ttl):
+                f.add('cfg:ttl-shortened')
+                if any(isinstance(tr[1], int) and isinstance(a['oldest'], int) for tr in prev):
+                    f.add('cfg:ttl-shortened-with-tracks')
+        if k == 'M' and cur_ordered:
+            f.add('cfg:switched-to-unordered')
+        if k == 'U' and cfgs[i][2] == 'switched-to-unordered' and accepted(a) and op[3] is not None \
+                and any(isinstance(tr[1], int) and op[3] < tr[1] for tr in prev):
+            f.add('cfg:older-timestamp-accepted-after-switch')
         if k == 'U':
             f.add('update')
             f.add('class:' + env().build(op[2])[3])
@@ -697,10 +796,12 @@ def features(h, impl):
                 f.add('merge')
             if any(ev == 'c' for ev, _ in a['events']) and any(ev == 'd' and tr[0] == m for ev, tr in a['events']):
                 f.add('created-and-expired-at-once')
-        if k in ('U', 'C') and cfg['ttl_q'] is not None and a['exn'] is None:
-            now, T = op[1], cfg['ttl_q']
+        if k in ('U', 'C') and cur_ttl is not None and a['exn'] is None:
+            now, T = op[1], cur_ttl
             if any(ev == 'd' for ev, _ in a['events']):
                 f.add('expiry')
+            if sum(1 for ev, _ in a['events'] if ev == 'd') > 64:
+                f.add('expiry:more-than-64-at-once')
             ages = [now - tr[1] for tr in (prev if k == 'C' else a['tracks'] + [t for e2, t in a['events'] if e2 == 'd'])
                     if isinstance(tr[1], int)]
             if T in ages:
@@ -709,7 +810,7 @@ def features(h, impl):
                 f.add('age==ttl-1')
             if T + 1 in ages:
                 f.add('age==ttl+1')
-            if not cfg['ordered']:
+            if not cur_ordered:
                 # a stale track inserted before a fresher one (the scan order matters)
                 seq = [now - tr[1] >= T for tr in prev if isinstance(tr[1], int)]
                 if True in seq and False in seq:
@@ -730,6 +831,16 @@ def features(h, impl):
             prev = a['tracks']
     if any(op[0] in ('A', 'D') and op[2] < 100 for op in h['ops']):
         f.add('broker-ops')
+    # a pair that was registered, removed and registered again, and an event of its kind afterwards
+    state = {}
+    for op, a in zip(h['ops'], impl):
+        if op[0] == 'A':
+            pr = (op[1], op[2])
+            state[pr] = 're' if state.get(pr) in ('off', 're') else 'on'
+        elif op[0] == 'D' and state.get((op[1], op[2])) in ('on', 're'):
+            state[(op[1], op[2])] = 'off'
+        elif op[0] in ('U', 'C', 'P') and any(v == 're' and any(ev == pr[0] for ev, _ in a['events']) for pr, v in state.items()):
+            f.add('broker:event-after-re-registration')
     return f
 
 
@@ -748,7 +859,8 @@ def cb_features(h, model):
                 return x
         return None
     subs = []                      # the subscriber list, as register_callback / remove_callback build it
-    for op, b in zip(h['ops'], model):
+    cfgs = configs(h)
+    for i, (op, b) in enumerate(zip(h['ops'], model)):
         k = op[0]
         if k == 'A':
             subs.append((op[1], op[2]))
@@ -772,7 +884,7 @@ def cb_features(h, model):
             f.add('cb:exception-escaped')
             if k in ('U', 'C') and any(ev == 'd' for _, ev, _, _ in raised):
                 f.add('cb:cleanup-aborted')
-                if cfg['ttl_q'] is not None and any(op[1] - tr[1] >= cfg['ttl_q'] for tr in b['tracks']):
+                if cfgs[i][0] is not None and any(op[1] - tr[1] >= cfgs[i][0] for tr in b['tracks']):
                     f.add('cb:cleanup-aborted-leaving-expired')
         if k in ('U', 'C') and b['exn'] is None and any(ev == 'd' for _, ev, _, _ in raised) \
                 and sum(1 for ev, _ in b['calls'] if ev == 'd') >= 2:
@@ -846,7 +958,8 @@ def check_histories(ctx, prop, hs, queries_only_for=('C14',), sample_every=401, 
                 if key not in shrunk and len(shrunk) < 6:
                     shrunk.add(key)
                     h2, step, text = shrink(ctx.model, prop, h, step, sig, text)
-                rep.violation(sig, f'[{mode(h2)}, ttl {h2["cfg"]["ttl_q"]}/4 s] ' + text + ' -- history: ' + short(h2),
+                cf = configs(h2)[step] if 0 <= step < len(h2['ops']) else (h2['cfg']['ttl_q'], h2['cfg']['ordered'], mode(h2))
+                rep.violation(sig, f'[{cf[2]}, ttl {cf[0]}/4 s] ' + text + ' -- history: ' + short(h2),
                               {'history': h2, 'step': step, 'signature': sig})
             if diff is not None:
                 step, comp, mv, iv = diff
@@ -915,6 +1028,10 @@ def short_op(op):
         return f'n_latest_tracks({op[1]})'
     if op[0] == 'G':
         return f'get_track({op[1]!r})'
+    if op[0] == 'T':
+        return f'ttl_in_seconds={op[1]}' + ('' if op[1] is None else '/4 s')
+    if op[0] == 'M':
+        return 'stream_is_ordered=False'
     return f"{'register' if op[0] == 'A' else 'remove'}_callback({op[1]},{op[2]})"
 
 
@@ -946,10 +1063,11 @@ def gen_behaviour(rng, ms):
     return attach, rules
 
 
-def gen_history(rng, kind='mixed', with_queries=False, n_ops=None, raising=False):
+def gen_history(rng, kind='mixed', with_queries=False, n_ops=None, raising=False, config=False):
     """A random history: 1-6 MMSIs, real messages of many classes (plus stubs), explicit / default / equal /
-    out-of-order timestamps, ttl None or small, both modes, ages around the ttl.  raising: some subscribers raise."""
-    ordered = rng.random() < 0.5
+    out-of-order timestamps, ttl None or small, both modes, ages around the ttl.  raising: some subscribers raise.
+    config: the history assigns new TTLs (shorter, longer, None) and may switch an ordered tracker to unordered."""
+    ordered = rng.random() < (0.7 if config else 0.5)
     ttl_q = rng.choice([None, None, 4, 8, 8, 12, 20, 6, 0])
     if kind == 'ttl' and ttl_q is None:
         ttl_q = rng.choice([4, 8, 12])
@@ -969,7 +1087,23 @@ def gen_history(rng, kind='mixed', with_queries=False, n_ops=None, raising=False
     pools = {m: [real_message(rng, m) for _ in range(3)] + [stub_message(rng, m)] for m in ms}
     n_ops = n_ops or rng.choice([4, 8, 12, 20, 30])
     T = ttl_q if ttl_q is not None else 8
+    ordered0, ttl0 = ordered, ttl_q
+    rereg = {}                     # kind 'broker': pairs (ev, cb 10/11) that are registered, removed, registered again ...
     for _ in range(n_ops):
+        if config and rng.random() < 0.14:
+            if ordered and rng.random() < 0.35:
+                ops.append(['M'])                      # from here on timestamps may go back
+                ordered = False
+            else:
+                new = rng.choice([None, 0, 2, 4, 4, 6, 8, 12, 20, 40, max(T - 4, 1), T + 4])
+                ops.append(['T', new])
+                T = new if new is not None else 8
+                if rng.random() < 0.6:
+                    ops.append(['C', now])             # the same instant under the new TTL
+        if kind == 'broker' and rng.random() < 0.12:
+            pair = (rng.choice('cud'), rng.choice([10, 11]))
+            ops.append(['D' if rereg.get(pair) else 'A', pair[0], pair[1]])
+            rereg[pair] = not rereg.get(pair)
         r = rng.random()
         if r < 0.25:                                   # clock advance, often to an age boundary of some track
             if lus and rng.random() < 0.6:
@@ -1024,7 +1158,7 @@ def gen_history(rng, kind='mixed', with_queries=False, n_ops=None, raising=False
     if with_queries:
         for n in range(0, len(ms) + 2):
             ops.append(['L', n])
-    cfg = {'ordered': ordered, 'ttl_q': ttl_q, 'base': base}
+    cfg = {'ordered': ordered0, 'ttl_q': ttl0, 'base': base}
     if rules:
         cfg['beh'] = rules
     if rng.random() < 0.2:
@@ -1110,6 +1244,69 @@ def directed_raising(rng):
     return hs
 
 
+def directed_config(rng):
+    """Hand-aimed histories in which the configuration changes: a new TTL (shorter: tracks that were fresh are due at
+    once, also when an earlier cleanup() found nothing due; longer; None; back) and an ordered tracker switched to
+    unordered (an older timestamp, rejected before the switch, is accepted after it and the table is no longer sorted)."""
+    hs = []
+    A, B, C, D = MMSIS[0], MMSIS[1], MMSIS[2], MMSIS[3]
+    for ordered in (False, True):
+        for base in BASES:
+            ra, rb, rc, rd = real_message(rng, A, 1), real_message(rng, B, 5), real_message(rng, C, 18), real_message(rng, D, 27)
+            mk = lambda ops, ttl: {'cfg': {'ordered': ordered, 'ttl_q': ttl, 'base': base}, 'ops': [list(o) for o in MON_OPS] + ops}
+            for early in (True, False):       # an earlier cleanup()/update() at which nothing was due, or none
+                pre = [['C', 8], ['C', 8]] if early else []
+                hs.append(mk([['U', 0, ra, 0], ['U', 4, rb, 4]] + pre + [['T', 12], ['C', 13], ['C', 13], ['U', 14, rc, None],
+                              ['T', 4], ['C', 14], ['C', 18], ['T', None], ['C', 400], ['U', 400, ra, None], ['T', 8], ['C', 407],
+                              ['C', 408]], 160))
+                hs.append(mk([['U', 0, ra, 0], ['U', 0, rb, 0]] + pre + [['T', 8], ['U', 8, rc, 8], ['T', 4], ['U', 12, rb, 12]], 40))
+            # longer: what was about to expire stays; ttl 0: everything goes at once
+            hs.append(mk([['U', 0, ra, 0], ['U', 2, rb, 2], ['C', 3], ['T', 40], ['C', 4], ['C', 39], ['C', 40], ['T', 0],
+                          ['U', 41, rc, 41], ['C', 41]], 4))
+            hs.append(mk([['U', 0, ra, 0], ['T', 12], ['C', 11], ['C', 12], ['U', 12, ra, 12], ['T', None], ['C', 99], ['T', 12],
+                          ['C', 23], ['C', 24]], None))
+            # switch to unordered (in an unordered tracker the assignment changes nothing)
+            hs.append(mk([['U', 0, ra, 8], ['U', 0, rb, 12], ['U', 0, rc, 4], ['M'], ['U', 0, rc, 4], ['U', 0, rd, 1], ['U', 0, ra, 9],
+                          ['U', 0, rb, 11], ['C', 16], ['C', 20], ['P', B], ['U', 21, rb, 2]], 12))
+            hs.append(mk([['U', 0, ra, 8], ['M'], ['U', 0, rb, 0], ['U', 0, rc, 4], ['U', 0, rd, 12], ['M'], ['U', 0, ra, 8]], None))
+            hs.append(mk([['M'], ['U', 0, ra, 8], ['U', 0, rb, 0], ['T', 4], ['C', 8], ['C', 12]], None))
+    return hs
+
+
+def directed_many(rng, sizes=(70, 130)):
+    """More tracks than any constant a scan might be limited to (70 ... 150 vessels) reach the TTL in ONE cleanup() /
+    update(), alone or with fresh tracks inserted before / after them."""
+    hs = []
+    for ordered in (False, True):
+        for n in sizes:
+            ms = [500000000 + 7 * i for i in range(n + 6)]
+            stub = lambda m, i: {'stub': {'mmsi': m, 'attrs': {}}}
+            mk = lambda ops: {'cfg': {'ordered': ordered, 'ttl_q': 12, 'base': 0}, 'ops': [list(o) for o in MON_OPS] + ops}
+            old = [['U', 2, stub(m, i), 0 if ordered else i % 3] for i, m in enumerate(ms[:n])]
+            fresh = [['U', 12, stub(m, i), 12] for i, m in enumerate(ms[n:])]
+            hs.append(mk(old + [['C', 13], ['C', 14], ['C', 15]]))                           # due at one instant / in thirds
+            hs.append(mk(old + fresh + [['C', 20], ['C', 20]]))                              # fresh tracks behind the stale ones
+            if not ordered:
+                hs.append(mk(fresh[:3] + old + fresh[3:] + [['U', 20, stub(ms[n], 0), None]]))   # found by update()
+    return hs
+
+
+def directed_reregistration(rng):
+    """A subscriber that is removed and registered again (the SAME (event, callback) pair) hears the events again."""
+    hs = []
+    A, B = MMSIS[0], MMSIS[1]
+    for ordered in (False, True):
+        ra, rb = real_message(rng, A, 1), real_message(rng, B, 5)
+        mk = lambda ops, ttl=None: {'cfg': {'ordered': ordered, 'ttl_q': ttl, 'base': 0}, 'ops': [list(o) for o in MON_OPS] + ops}
+        for ev in 'cud':
+            hs.append(mk([['A', ev, 10], ['U', 0, ra, 0], ['U', 0, ra, 1], ['D', ev, 10], ['U', 0, ra, 2], ['P', A], ['U', 0, ra, 3],
+                          ['A', ev, 10], ['U', 0, ra, 4], ['U', 0, ra, 5], ['U', 0, rb, 5], ['P', A], ['D', ev, 10], ['A', ev, 10],
+                          ['P', B], ['U', 0, rb, 6], ['U', 0, rb, 7]]))
+        hs.append(mk([['A', 'd', 10], ['A', 'd', 11], ['U', 0, ra, 0], ['D', 'd', 10], ['C', 13], ['A', 'd', 10], ['U', 13, rb, 13],
+                      ['D', 'd', 11], ['A', 'd', 11], ['C', 30]], 12))
+    return hs
+
+
 # behaviours of the enumerated histories (callback 7; vessels 111 and 222 as in enumerated_histories)
 ENUM_BEHS = [
     [[7, 'd', None, 'KeyError']],
@@ -1120,7 +1317,10 @@ ENUM_BEHS = [
 ]
 
 
-def enumerated_histories(max_len, configs=None):
+CONFIG_LETTERS = [('S', 4), ('S', 12), ('S', None), ('M',)]      # ttl := 1 s / 3 s / None, switch to unordered
+
+
+def enumerated_histories(max_len, configs=None, letters=()):
     """All histories up to max_len over 2 MMSIs x 3 timestamps (explicit or default), pop, cleanup and a clock tick;
     message classes rotate with the position.  Generator of histories."""
     A, B = 111, 222
@@ -1129,7 +1329,7 @@ def enumerated_histories(max_len, configs=None):
     classes = [lambda m: {'stub': {'mmsi': m, 'attrs': {a3[0]: 0}}} if a3 else {'stub': {'mmsi': m, 'attrs': {}}},
                lambda m: {'stub': {'mmsi': m, 'attrs': {n: 'x' for n in a3[1:]}}},
                lambda m: {'stub': {'mmsi': m, 'attrs': {a3[0]: None} if a3 else {}}}]
-    alphabet = [('U', m, ts) for m in (A, B) for ts in (0, 4, 8, None)] + [('P', A), ('P', B), ('C',), ('T',)]
+    alphabet = [('U', m, ts) for m in (A, B) for ts in (0, 4, 8, None)] + [('P', A), ('P', B), ('C',), ('T',)] + list(letters)
     configs = configs or [(o, t) for o in (False, True) for t in (None, 4)]
     for config in configs:
         ordered, ttl = config[0], config[1]
@@ -1137,6 +1337,8 @@ def enumerated_histories(max_len, configs=None):
         extra = [['A', ev, cb] for ev, cb in sorted({(r[1], r[0]) for r in beh})] if beh else []
         for ln in range(1, max_len + 1):
             for word in itertools.product(alphabet, repeat=ln):
+                if letters and not any(w in letters for w in word):
+                    continue                           # without a configuration operation: enumerated already
                 now = 4
                 ops = [list(o) for o in MON_OPS] + [list(o) for o in extra]
                 useful = False
@@ -1148,6 +1350,10 @@ def enumerated_histories(max_len, configs=None):
                         useful = True
                     elif w[0] == 'P':
                         ops.append(['P', w[1]])
+                    elif w[0] == 'S':
+                        ops.append(['T', w[1]])
+                    elif w[0] == 'M':
+                        ops.append(['M'])
                     else:
                         ops.append(['C', now])
                 if useful and word[-1][0] != 'T':
@@ -1157,9 +1363,9 @@ def enumerated_histories(max_len, configs=None):
                     yield {'cfg': cfg, 'ops': ops}
 
 
-def add_queries(h):
-    """The history with n_latest_tracks(n) for n = 0 .. 3 after its last operation (enumerated C14 states)."""
-    return {'cfg': h['cfg'], 'ops': h['ops'] + [['L', n] for n in range(0, 4)]}
+def add_queries(h, upto=4):
+    """The history with n_latest_tracks(n) for n = 0 .. upto-1 after its last operation (enumerated C14 states)."""
+    return {'cfg': h['cfg'], 'ops': h['ops'] + [['L', n] for n in range(0, upto)]}
 
 
 # ------------------------------------------------------------------------------------------------ entry points
@@ -1180,8 +1386,14 @@ def run_common(ctx, prop):
     hs = directed_histories(rng)
     if raising:
         hs += directed_raising(rng)
+    hs += directed_reregistration(rng)
     if with_q:
         hs = [add_queries(h) for h in hs]
+    # the configuration changes during the history (new TTL, ordered -> unordered); very many tracks due at once
+    cf = directed_config(rng) + (directed_many(rng, (70, 130) if ctx.quick else (65, 70, 100, 150)) if prop == 'C13' or not ctx.quick else [])
+    hs += [add_queries(h, 6) for h in cf] if with_q else cf
+    for i in range(ctx.budget(80 if with_q else 120, 2000)):
+        hs.append(gen_history(rng, 'ttl' if i % 2 else 'mixed', with_queries=with_q, config=True, raising=(raising and i % 5 == 0)))
     n = ctx.budget(300 if with_q else 500, 6000)
     for i in range(n):
         kind = 'broker' if (prop == 'C15' and i % 4 == 0) or i % 10 == 0 else ('ttl' if prop == 'C13' or i % 2 else 'mixed')
@@ -1209,10 +1421,20 @@ def run_common(ctx, prop):
         ctx.rep.count('enumerated-raising', len(en))
         ctx.rep.exhaustive.append(f'all histories of length <= 3 over the same alphabet with a subscriber (callback 7) that raises: '
                                   f'{len(behs)} behaviours x both modes, ttl 1 s ({len(en)} histories)')
+    # the same alphabet + assignments to ttl_in_seconds (1 s, 3 s, None) + switch to unordered, starting with ttl 3 s
+    # (C14, quick: only trackers built ordered -- the TTL does not matter to n_latest_tracks, the switch does)
+    en = list(enumerated_histories(3, [(o, 12) for o in ((True,) if with_q and ctx.quick else (False, True))], letters=CONFIG_LETTERS))
+    if with_q:
+        en = [add_queries(h) for h in en]
+    check_histories(ctx, prop, en, sample_every=0, want_features=False)
+    ctx.rep.count('enumerated-config', len(en))
+    ctx.rep.exhaustive.append(f'all histories of length <= 3 over the same alphabet + ttl_in_seconds := 1 s / 3 s / None + '
+                              f'stream_is_ordered := False, ' + ('built ordered' if with_q and ctx.quick else 'both modes') + f', initial ttl 3 s ({len(en)} histories)')
     if not ctx.quick:
         exhaustive(ctx, prop, 5)
         if raising:
             exhaustive(ctx, prop, 4, behs=ENUM_BEHS)
+        exhaustive(ctx, prop, 4, letters=True)
 
 
 def _worker(job):
@@ -1223,7 +1445,8 @@ def _worker(job):
     ctx = types.SimpleNamespace(rep=rep, model=vlib.FastModel(), quick=False)
     hs = []
     n = 0
-    for i, h in enumerate(enumerated_histories(max_len, [cfg])):
+    letters = CONFIG_LETTERS if len(cfg) > 3 and cfg[3] else ()
+    for i, h in enumerate(enumerated_histories(max_len, [cfg[:3]], letters=letters)):
         if sum(1 for o in h['ops'] if o[0] != 'A') < max_len and max_len >= 4:
             continue                                   # shorter ones were done in the main process
         if i % nshards != shard:
@@ -1241,12 +1464,14 @@ def _worker(job):
     return {'n': n, 'violations': rep.violations[:20], 'disagreements': rep.disagreements[:5]}
 
 
-def exhaustive(ctx, prop, max_len, behs=None):
+def exhaustive(ctx, prop, max_len, behs=None, letters=False):
     """All histories of exactly max_len operations (see enumerated_histories), in parallel workers; behs: with a
-    subscriber that raises (one run per behaviour, ttl 1 s)."""
+    subscriber that raises (one run per behaviour, ttl 1 s); letters: with the configuration operations (initial ttl 3 s)."""
     import multiprocessing as mp
     nshards = 8
-    if behs:
+    if letters:
+        jobs = [(prop, max_len, (o, 12, None, True), s, nshards, ctx.seed) for o in (False, True) for s in range(nshards)]
+    elif behs:
         nshards = 2
         jobs = [(prop, max_len, (o, 4, b), s, nshards, ctx.seed) for o in (False, True) for b in behs for s in range(nshards)]
     else:
@@ -1260,8 +1485,9 @@ def exhaustive(ctx, prop, max_len, behs=None):
                 ctx.rep.violations.append(v)
             for d in res['disagreements']:
                 ctx.rep.disagreements.append(d)
-    ctx.rep.count('enumerated-raising' if behs else 'enumerated', total)
+    ctx.rep.count('enumerated-config' if letters else 'enumerated-raising' if behs else 'enumerated', total)
     ctx.rep.exhaustive.append(f'all histories of length {max_len} over the same alphabet'
+                              + (' + ttl_in_seconds := 1 s / 3 s / None + stream_is_ordered := False (initial ttl 3 s)' if letters else '')
                               + (f' with a subscriber that raises ({len(behs)} behaviours, ttl 1 s)' if behs else '')
                               + f' ({total} histories)')
 
@@ -1275,9 +1501,12 @@ def hunt_common(ctx, prop):
         exhaustive(ctx, prop, 4, behs=ENUM_BEHS)
         if ctx.rep.violations:
             return
+    exhaustive(ctx, prop, 4, letters=True)
+    if ctx.rep.violations:
+        return
     rng = ctx.rng
     hs = [gen_history(rng, 'ttl' if i % 2 else 'mixed', with_queries=prop == 'C14', n_ops=rng.choice([30, 60]),
-                      raising=(prop != 'C12' and i % 3 == 0)) for i in range(3000)]
+                      raising=(prop != 'C12' and i % 3 == 0), config=(i % 4 == 1)) for i in range(3000)]
     check_histories(ctx, prop, hs, sample_every=0)
 
 
@@ -1346,13 +1575,17 @@ TRUSTED_EXTRA = ['Prim/IntDict.v: dict insertion order, assignment to an existin
                  'messages reach the model as data: for every AISTrack field (dataclasses.fields) whether the decoded message '
                  'has the attribute (attr.fields) and its value as an opaque token']
 NEEDED = {
-    'C12': {'merge': 0.05, 'rejected': 0.05, 'expiry': 0.05, 'pop:hit': 0.05, 'ts-equals-own-track': 0.05},
+    'C12': {'merge': 0.05, 'rejected': 0.05, 'expiry': 0.05, 'pop:hit': 0.05, 'ts-equals-own-track': 0.05,
+            'cfg:ttl-assigned': 0.03, 'cfg:switched-to-unordered': 0.02},
     'C13': {'expiry': 0.05, 'stale-and-fresh-mixed': 0.05, 'age==ttl': 0.05, 'age==ttl-1': 0.02, 'age==ttl+1': 0.02,
+            'cfg:ttl-shortened-with-tracks': 0.03, 'expiry:more-than-64-at-once': 0.003,
             'cb:expiry-with-keyerror-subscriber': 0.05, 'cb:several-expired-one-raises': 0.02, 'cb:exception-escaped': 0.03,
             'cb:cleanup-aborted': 0.02, 'cb:pop-with-raising-subscriber': 0.02, 'cb:created-subscriber-raises': 0.02},
     'C14': {'n==0': 0.05, 'n==len': 0.05, 'n>len': 0.05, 'n<len': 0.05, 'n_latest:ties': 0.05,
+            'cfg:older-timestamp-accepted-after-switch': 0.02,
             'cb:keyerror-swallowed': 0.05, 'cb:exception-escaped': 0.03},
     'C15': {'expiry': 0.05, 'rejected': 0.05, 'pop:hit': 0.05, 'created-and-expired-at-once': 0.02, 'broker-ops': 0.05,
+            'broker:event-after-re-registration': 0.02,
             'cb:keyerror-swallowed': 0.05, 'cb:exception-escaped': 0.03, 'cb:subscriber-loop-truncated': 0.02,
             'cb:created-subscriber-raises': 0.02, 'cb:updated-subscriber-raises': 0.02},
 }
